@@ -394,7 +394,7 @@ def ddmin_lists(ops, keep_first=0):
 
 # --------------------------------------------------------------- replay -----
 def write_replay(check, seed_i, run, payload, repo):
-    d = os.path.join(VERIF, 'replays')
+    d = os.environ.get('VERIF_REPLAY_DIR', os.path.join(VERIF, 'replays'))
     os.makedirs(d, exist_ok=True)
     fn = os.path.join(d, '{}-{}.json'.format(check.PROPERTY, seed_i))
     with open(fn, 'w') as f:
@@ -471,6 +471,7 @@ def write_evidence(check, tier, seed, res, cfg, n_planned, extra, n_viol):
         'faults_fired': cov.group('fault'),
         'probes': cov.group('probe'),
         'paths': cov.group('path'),
+        'op_kinds': cov.group('opkind'),
         'skipped': cov.group('skipped'),
         'unresolved': cov.n.get('unresolved', 0),
         'distinct': {k: len(v)
@@ -496,7 +497,7 @@ def write_evidence(check, tier, seed, res, cfg, n_planned, extra, n_viol):
         'wall_s': round(wall, 2),
         'violations': n_viol,
     }
-    d = os.path.join(VERIF, 'evidence')
+    d = os.environ.get('VERIF_EVIDENCE_DIR', os.path.join(VERIF, 'evidence'))
     os.makedirs(d, exist_ok=True)
     fn = os.path.join(d, check.PROPERTY + '.json')
     with open(fn + '.tmp', 'w') as f:
